@@ -452,6 +452,14 @@ def discharge(ob: Obligation, st: State, timeout_ms: int, use_cvc5: bool, both: 
             ob.model = {"error": f"model decoding failed: {e}"}
     else:
         ob.status, ob.detail = "unknown", str(m)
+        if st.cfg.get("ground") and smt.LAST_CANDIDATE is not None:
+            # refutation search only: keep the solver's candidate model; it counts for nothing unless the native replay
+            # reproduces the failure with it
+            try:
+                ob.model = decode_model(smt.LAST_CANDIDATE, st)
+                ob.detail = "candidate model (solver gave up on quantifiers): " + str(m)
+            except Exception:
+                ob.model = None
         # quantifier instantiation is sensitive to scheduling noise: before giving up, two more attempts with other
         # solver seeds and twice the time (a verdict must not flip because the machine is busy)
         for attempt in (() if st.cfg.get("ground") else (1, 2)):
